@@ -14,6 +14,7 @@ import (
 	_ "verif/props/c04"
 	_ "verif/props/c09"
 	_ "verif/props/c12"
+	_ "verif/props/c20"
 	_ "verif/props/c13"
 	"verif/props/chainprops"
 )
@@ -77,6 +78,10 @@ func main() {
 		os.Exit(0)
 	case "trace":
 		chainprops.Trace(os.Args[2], os.Args[3:])
+	case "racepass":
+		if f := core.RaceBodies(os.Args[2]); f != nil {
+			f()
+		}
 	case "selftest":
 		os.Exit(selftest())
 	case "list":
